@@ -16,6 +16,23 @@ from framework import Prop, canon_json
 
 VIEWMODE = os.environ.get("C11_VIEWMODE", "fixed")
 
+
+def _fc11a_expected():
+    """Is fixes/FC11a-minimalloc-start-alignment.diff (repair of finding C11-N1) expected in the code under test?
+    Single switch: the status of C11-N1 in known_findings.d/C11.json ("fixed" -> yes); C11_FC11A=0/1 overrides."""
+    env = os.environ.get("C11_FC11A")
+    if env is not None:
+        return env == "1"
+    import json
+    path = os.path.join(leandrv.VERIF, "known_findings.d", "C11.json")
+    try:
+        return any(f["id"] == "C11-N1" and f.get("status") == "fixed" for f in json.load(open(path))["findings"])
+    except OSError:
+        return False
+
+
+FC11A = _fc11a_expected()
+
 # Bit widths of the generated element types. One element occupies ceil(bits / 8) bytes in memory: that is what
 # the byte strides of the layout (tsl.get_step_ops), the DMA and the memref lowering use. The table is the
 # harness's own (it does not ask the type for its `.size`), so a wrong element size in the code under test shows.
@@ -29,6 +46,8 @@ ERR2EXC = {
     "innerDynamic": "AssertionError", "rankMismatch": "IndexError", "zeroDiv": "ZeroDivisionError",
     "full": "RuntimeError", "notStatic": "RuntimeError", "noMemSpace": "RuntimeError", "unknownMem": "KeyError",
     "noUse": "StopIteration", "firstUseNotCast": "AssertionError", "badSolution": "KeyError",
+    "solverFull": "RuntimeError", "misalignedStart": "RuntimeError", "badMode": "RuntimeError",
+    "noAlignAttr": "AssertionError",
 }
 T1 = "!llvm.struct<(!llvm.ptr, !llvm.ptr, i32, !llvm.array<2 x i32>, !llvm.array<2 x i32>)>"
 SHAPE = [16, 1]  # shape operands of every generated snax.alloc (%c16, %c1)
@@ -52,8 +71,19 @@ def layout_text(dims, offset):
     return ", ".join(parts) + (f", offset: {offset}" if offset else "")
 
 
+def not_rewritten(case):
+    """guards of AllocOpRewrite: memory space "L1", integer/float element type, layout none or tiled-strided"""
+    return case.get("space", "L1") != "L1" or case["el"] == "index" or bool(case.get("strided"))
+
+
 def memref_type_text(case):
     lay = "" if case["dims"] is None else f", #tsl.tsl<{layout_text(case['dims'], case['offset'])}>"
+    if case.get("strided"):  # a builtin strided layout (row major): neither of the two layouts the pattern sizes
+        st, acc = [], 1
+        for n in reversed(case["tshape"]):
+            st.insert(0, acc)
+            acc *= n
+        lay = f", strided<[{', '.join(map(str, st))}]>"
     return (f"memref<{'x'.join('?' if s is None else str(s) for s in case['tshape'])}x{case['el']}{lay}, "
             f"\"{case.get('space', 'L1')}\">")
 
@@ -157,8 +187,14 @@ def gen_size_case(rng, big=False):
     if rng.random() < 0.12:
         tshape = [rng.choice([1, 2, 3, 5, 8, None]) for _ in range(rank)]
         rt = [s if s is not None else rng.choice([1, 2, 7]) for s in tshape]
-        return {"kind": "size", "el": el, "dims": None, "offset": 0, "tshape": tshape, "rt": rt,
+        case = {"kind": "size", "el": el, "dims": None, "offset": 0, "tshape": tshape, "rt": rt,
                 "space": rng.choice(["L1", "L1", "L1", "L3"])}
+        q = rng.random()
+        if q < 0.1:
+            case["el"] = "index"
+        elif q < 0.2 and all(n is not None for n in tshape):
+            case["strided"] = True
+        return case
     # deliberate family: fully static DENSE layouts (a permutation of a contiguous buffer: no gaps, no `?`) that
     # carry a non-zero layout offset -- the offset is the only thing that makes them larger than prod(shape)*el
     dense = rng.random() < 0.15
@@ -219,16 +255,22 @@ def gen_size_case(rng, big=False):
 # allocation programs (static and minimalloc/auto)
 # ------------------------------------------------------------------------------------------------
 
-def alloc_text(name, size_name, mem, align):
+def mem_name(i, l1=False):
+    """name of memory i of a case; with the case flag `l1` memory 0 is the space "L1" (the only one that
+    DynamicAllocs rewrites)"""
+    return "L1" if (l1 and i == 0) else f"M{i}"
+
+
+def alloc_text(name, size_name, mem, align, l1=False):
     props = []
     if mem is not None:
-        props.append(f'memory_space = "{"M" + str(mem) if mem >= 0 else "Nowhere"}"')
+        props.append(f'memory_space = "{mem_name(mem, l1) if mem >= 0 else "Nowhere"}"')
     if align is not None:
         props.append(f"alignment = {align} : i64")
     return f'%{name} = "snax.alloc"(%{size_name}, %c16, %c1) <{{{", ".join(props)}}}> : (index, index, index) -> {T1}'
 
 
-def render_ops(ops, types, ind, lines):
+def render_ops(ops, types, ind, lines, l1=False):
     """ops: list of op descriptions (see gen_body); types: value name -> MLIR type (mutated)."""
     pad = "  " * ind
     for op in ops:
@@ -237,9 +279,10 @@ def render_ops(ops, types, ind, lines):
             _, n, mem, size, align = op
             if size is None:
                 lines.append(f'{pad}%s{n} = "test.op"() : () -> index')
-            else:
+            elif size != "arg":
                 lines.append(f"{pad}%s{n} = arith.constant {size} : index")
-            lines.append(pad + alloc_text(f"a{n}", f"s{n}", mem, align))
+            # size "arg": the size operand is the function argument %n (a block argument, no OpResult)
+            lines.append(pad + alloc_text(f"a{n}", "n" if size == "arg" else f"s{n}", mem, align, l1))
             types[f"a{n}"] = T1
         elif k == "cast":
             _, v, src = op
@@ -261,16 +304,16 @@ def render_ops(ops, types, ind, lines):
         elif k == "for":
             lines.append(f'{pad}"scf.for"(%c0, %c16, %c1) ({{')
             lines.append(f"{pad}^bb{ind}(%i{len(lines)} : index):")
-            render_ops(op[1], types, ind + 1, lines)
+            render_ops(op[1], types, ind + 1, lines, l1)
             lines.append(f'{pad}  "scf.yield"() : () -> ()')
             lines.append(f"{pad}}}) : (index, index, index) -> ()")
         elif k == "if":
             lines.append(f'{pad}%cond{len(lines)} = "test.op"() : () -> i1')
             lines.append(f'{pad}"scf.if"(%cond{len(lines) - 1}) ({{')
-            render_ops(op[1], types, ind + 1, lines)
+            render_ops(op[1], types, ind + 1, lines, l1)
             lines.append(f'{pad}  "scf.yield"() : () -> ()')
             lines.append(f"{pad}}}, {{")
-            render_ops(op[2], types, ind + 1, lines)
+            render_ops(op[2], types, ind + 1, lines, l1)
             lines.append(f'{pad}  "scf.yield"() : () -> ()')
             lines.append(f"{pad}}}) : (i1) -> ()")
         else:
@@ -278,14 +321,17 @@ def render_ops(ops, types, ind, lines):
 
 
 def prog_src(case):
-    lines = ["builtin.module {", "  func.func public @f() {", "    %c0 = arith.constant 0 : index",
+    lines = ["builtin.module {", "  func.func public @f(%n : index) {", "    %c0 = arith.constant 0 : index",
              "    %c1 = arith.constant 1 : index", "    %c16 = arith.constant 16 : index"]
-    render_ops(case["body"], {}, 2, lines)
+    render_ops(case["body"], {}, 2, lines, bool(case.get("l1")))
+    if case.get("blocks", 1) == 2:
+        # a function body with two blocks: MiniMallocate returns without doing anything
+        lines += ['    "cf.br"() [^tail] : () -> ()', "  ^tail:"]
     lines += ["    func.return", "  }", "}"]
     return "\n".join(lines)
 
 
-def gen_body(rng, mems, mode, big=False):
+def gen_body(rng, mems, mode, big=False, l1=False):
     """A structured random function body: top-level allocs, first-level casts, chains of views, uses at
     any nesting depth, loops and conditionals. Returns the op list."""
     counter = itertools.count()
@@ -314,10 +360,14 @@ def gen_body(rng, mems, mode, big=False):
                         mem = None
                     elif q < 0.3:
                         mem = -1
-                    elif q < 0.45 and mode != "static":
-                        size = None
+                    elif q < 0.45:
+                        size = rng.choice([None, None, "arg"])  # not a constant / not even an op result
                     elif q < 0.7 and mode == "static":
                         align = rng.choice([None, 0])
+                    elif q < 0.6:
+                        align = None  # minimalloc: alignment 0 goes to the solver; dynamic: AssertionError
+                elif mode in ("auto", "dynamic") and rng.random() < 0.12:
+                    size = rng.choice([None, "arg"])  # runtime-sized buffers are what the dynamic path is for
                 ops.append(["alloc", k, mem, size, align])
                 if malformed and rng.random() < 0.15:
                     continue  # alloc without cast
@@ -363,6 +413,30 @@ def gen_body(rng, mems, mode, big=False):
     return body
 
 
+def walk_allocs(ops):
+    """the alloc descriptions of a body in walk (pre-)order"""
+    for op in ops:
+        if op[0] == "alloc":
+            yield op
+        elif op[0] == "for":
+            yield from walk_allocs(op[1])
+        elif op[0] == "if":
+            yield from walk_allocs(op[1])
+            yield from walk_allocs(op[2])
+
+
+def tighten_mems(rng, mems, body):
+    """Deliberate family "nearly full memory": the capacity of every memory becomes what a bump allocation of the
+    body needs, give or take a few bytes, so that the last buffers fit exactly, only without their alignment
+    padding, or not at all (generator-side arithmetic only; nothing of it reaches model or oracle)."""
+    cur = [start for start, _ in mems]
+    for _, _, mem, size, align in walk_allocs(body):
+        if isinstance(mem, int) and 0 <= mem < len(mems) and isinstance(size, int):
+            a = align if isinstance(align, int) and align > 0 else 1
+            cur[mem] = (cur[mem] + a - 1) // a * a + size
+    return [[start, max(1, cur[i] - start + rng.choice([-9, -4, -2, -1, 0, 0, 0, 1, 3, 8]))] for i, (start, _) in enumerate(mems)]
+
+
 def gen_mems(rng):
     n = rng.choice([1, 1, 2])
     mems = []
@@ -380,9 +454,14 @@ def build_ir(case):
     from xdsl.dialects import func
     from xdsl.dialects.builtin import StringAttr
     from xdsl.parser import Parser
+    from snaxc.tools.configs import SnaxMemoryConfig
     ctx = snaxrun.fresh_ctx()
     for i, (start, cap) in enumerate(case["mems"]):
-        ctx.register_memory(SnaxMemory(StringAttr(f"M{i}"), cap, start))
+        name = mem_name(i, bool(case.get("l1")))
+        if (i + len(case["mems"])) % 2 == 0:  # also through the constructor the hardware configs use
+            ctx.register_memory(SnaxMemory.from_config(SnaxMemoryConfig(name=name, start=start, size=cap)))
+        else:
+            ctx.register_memory(SnaxMemory(StringAttr(name), cap, start))
     module = Parser(ctx, prog_src(case)).parse_module()
     f = next(op for op in module.body.block.ops if isinstance(op, func.FuncOp))
     return ctx, module, f
@@ -405,6 +484,8 @@ def mem_index(alloc):
     if ms is None:
         return None
     name = ms.data
+    if name == "L1":
+        return 0  # only generated with the case flag `l1`: memory 0
     return int(name[1:]) if name.startswith("M") and name[1:].isdigit() else 10 ** 6  # unregistered
 
 
@@ -525,25 +606,31 @@ class C11(Prop):
     exhaustive_thorough = True
     trusted_base = [
         "modelled: memref_to_snax.AllocOpRewrite + tsl.get_bound_ops/get_step_ops(in_bytes); snax_allocate.StaticAllocs, "
-        "MiniMallocate (with fix F12), allocs_are_static, create_memref_struct (Model/Alloc.lean)",
+        "MiniMallocate (with fix F12), mode dispatch, allocs_are_static, DynamicAllocs (which allocs become runtime calls), "
+        "create_memref_struct (Model/Alloc.lean)",
         "the emitted index arithmetic is interpreted in Z by harness/props/c11.py (no 32/64-bit wrap-around)",
-        "external solver `minimalloc` (absent here): hypothesis SolverContract; the stub in harness/compat.py is a first-fit "
-        "placer; every answer it gives is checked against the contract by the Lean function contractOk "
-        "(proved to imply SolverContract) and independently in Python",
+        "external solver `minimalloc` (absent here): for the real package the contract stays a hypothesis (SolverContract); the "
+        "pass runs here with the first-fit stand-in of harness/compat.py, whose Lean model firstFit is PROVED to satisfy the "
+        "contract and to terminate and is tied to the stand-in by equal emitted addresses on every case; the stand-in's answers "
+        "are additionally checked against the contract in Python by the oracle",
     ]
     assumptions = [
         "a layout covers its shape on dimensions with a static outermost bound (clause Covers = property C09, defect D22)",
         "aliasing of a buffer arises only through unrealized_conversion_cast, memref.subview/cast/memory_space_cast/"
         "reinterpret_cast and snax.layout_cast; memrefs passed through block arguments, calls, expand/collapse_shape are not followed",
         "MiniMallocate places each function separately: buffers of different functions may share addresses (outside the property text)",
-        "alignment 0 handed to the external solver (alloc without alignment attribute in minimalloc mode) is outside the contract",
-        "dynamic mode (runtime allocation through snax_alloc_l1) is not static allocation and is only recognised, not modelled",
+        "alignment 0 handed to a real external solver (alloc without alignment attribute in minimalloc mode) is outside the "
+        "contract; the first-fit stand-in and its model treat it as 1",
+        "runtime allocation (mode dynamic / auto with a non-constant size): only which allocs become snax_alloc_l1(size, alignment) "
+        "calls and how the descriptor is built is modelled; what the runtime allocator returns is outside the property",
+        "a function body with more than one block is left unallocated by MiniMallocate (modelled as a no-op, not a violation)",
         "one element of an integer/float type of width w occupies ceil(w / 8) bytes (the convention of the layout's byte strides, "
         "the DMA and xDSL's FixedBitwidthType.size); sub-byte packing and power-of-two padding (i20 in 4 bytes) are not considered",
     ]
     rule = ("size: random TSL layouts (rank<=3, depth<=3, gaps, offsets, dynamic outer bounds/steps) and no-layout memrefs, "
             "a deliberate family of fully static dense layouts with a non-zero offset; element types of whole-byte, sub-byte and odd widths (i1 i4 i7 i12 i20 i24 i33 ...; footprint ceil(bits/8)); "
-            "static/mini: random functions with allocs, casts, view chains, nested uses, 1-2 memories; non-trivial = layout with "
+            "a deliberate family of nearly full memories (capacity = what the body needs +-9 bytes); static/mini: random functions with allocs, casts, view chains, nested uses, 1-2 memories (optionally the space L1), modes "
+            "static/minimalloc/auto/dynamic/unsupported, non-constant and block-argument sizes, missing alignments, two-block bodies; non-trivial = layout with "
             "gap/dynamic dim, or >=2 placed buffers; distinct by canonical JSON")
 
     # -- generators -----------------------------------------------------------------------------
@@ -551,16 +638,27 @@ class C11(Prop):
         quick = tier == "quick"
         n_size = 260 if quick else 6000
         n_static = 120 if quick else 2500
-        n_mini = 260 if quick else 5000
+        n_mini = 340 if quick else 6000
         for _ in range(n_size):
             yield gen_size_case(rng, big=not quick and rng.random() < 0.3)
         for _ in range(n_static):
             mems = gen_mems(rng)
-            yield {"kind": "static", "mode": "static", "mems": mems, "body": gen_body(rng, mems, "static", big=not quick)}
+            body = gen_body(rng, mems, "static", big=not quick)
+            if rng.random() < 0.45:
+                mems = tighten_mems(rng, mems, body)
+            yield {"kind": "static", "mode": "static", "mems": mems, "body": body}
         for _ in range(n_mini):
             mems = gen_mems(rng)
-            mode = rng.choice(["minimalloc", "minimalloc", "auto"])
-            yield {"kind": "mini", "mode": mode, "mems": mems, "body": gen_body(rng, mems, mode, big=not quick)}
+            mode = rng.choice(["minimalloc"] * 10 + ["auto"] * 6 + ["dynamic"] * 3 + ["bogus"])
+            case = {"kind": "mini", "mode": mode, "mems": mems}
+            if rng.random() < (0.7 if mode in ("auto", "dynamic") else 0.15):
+                case["l1"] = True  # memory 0 is the space "L1", the only one DynamicAllocs rewrites
+            if mode in ("minimalloc", "auto") and rng.random() < 0.04:
+                case["blocks"] = 2
+            case["body"] = gen_body(rng, mems, mode, big=not quick)
+            if rng.random() < 0.15:
+                case["mems"] = tighten_mems(rng, mems, case["body"])  # the solver at the edge of the capacity
+            yield case
         if not quick:
             yield from self.exhaustive_small()
 
@@ -597,19 +695,31 @@ class C11(Prop):
         install_capture()
         ctx, module, f = build_ir(case)
         ids = number_values(f)
-        orig_ops = list(f.body.block.ops)
+        orig_ops = list(f.body.blocks[0].ops)
         orig_index = {op: i for i, op in enumerate(orig_ops)}
         all_allocs = [op for op in f.walk() if isinstance(op, snax.Alloc)]
+        alloc_sizes = [a.size for a in all_allocs]
+        alloc_aligns = [None if a.alignment is None else a.alignment.value.data for a in all_allocs]
         top_allocs = [op for op in orig_ops if isinstance(op, snax.Alloc)]
         walk_reqs = [req_of(a) for a in (all_allocs if case["mode"] == "static" else top_allocs)]
         hash2idx = {str(hash(op)): orig_index[op] for op in top_allocs}
         idx2mem = {orig_index[op]: mem_index(op) for op in top_allocs}
         _Capture.items = []
         SnaxAllocatePass(mode=case["mode"]).apply(ctx, module)
-        addrs = []
-        # DynamicAllocs (mode auto with a non-constant size) only rewrites allocs in memory "L1" into calls of
-        # snax_alloc_l1; the generated memories are M0, M1, so it leaves every alloc in place
-        n_calls = sum(1 for op in module.walk() if isinstance(op, func.CallOp))
+        # DynamicAllocs (mode dynamic, or auto with a non-constant size) rewrites the allocs in memory "L1" into
+        # calls of snax_alloc_l1(size, alignment) and leaves the others in place
+        calls = [op for op in f.walk() if isinstance(op, func.CallOp)]
+        n_calls = len(calls)
+        call_no = {c: i for i, c in enumerate(calls)}
+        dyn = []
+        if calls:
+            it = iter(calls)
+            for a, sz, al in zip(all_allocs, alloc_sizes, alloc_aligns):
+                if a.parent_op() is not None:  # still in the IR: left alone
+                    dyn.append(None)
+                else:
+                    c = next(it)
+                    dyn.append([c.arguments[1].owner.value.value.data, c.arguments[0] is sz])
         addrs = []
         descr = []
         for op in f.walk():
@@ -634,12 +744,16 @@ class C11(Prop):
                         return cst(o.input) % 2 ** 32
                     if o.name == UCAST:
                         return cst(o.operands[0])
+                    if isinstance(o, llvm.ExtractValueOp):
+                        # pointer k of the pair that the runtime allocator call number i returns
+                        ld = o.container.owner
+                        return ["ret", call_no[ld.ptr.owner], list(o.position.get_values())[0]]
                     return o.value.value.data
                 descr.append([cst(fields[(0,)]), cst(fields[(1,)]), cst(fields[(2,)]),
                               [cst(fields[k]) for k in sorted(k for k in fields if k[0] == 3)]])
         placed = [[r[0], a, r[1], r[2]] for r, a in zip(walk_reqs, addrs)]
         out = {"placed": placed, "descr": descr, "leftover_allocs": sum(1 for op in f.walk() if isinstance(op, snax.Alloc)),
-               "runtime_alloc_calls": n_calls}
+               "runtime_alloc_calls": n_calls, "dyn": dyn}
         if case["mode"] == "static":
             return out
         bufs = []
@@ -650,7 +764,7 @@ class C11(Prop):
         deallocs = []
         cur_top = -1
         alloc_iter = iter(orig_index[a] for a in top_allocs)
-        for op in f.body.block.ops:
+        for op in f.body.blocks[0].ops:
             if op in orig_index:
                 cur_top = orig_index[op]
             elif isinstance(op, llvm.IntToPtrOp):
@@ -669,7 +783,7 @@ class C11(Prop):
 
     def requests(self, case):
         if case["kind"] == "size":
-            if case.get("space", "L1") != "L1":
+            if not_rewritten(case):
                 return []
             if case["dims"] is None:
                 return [{"fn": "c11.size_nolayout", "args": {"el": EL[case["el"]], "shape": case["rt"]}}]
@@ -686,14 +800,25 @@ class C11(Prop):
             reqs = [req_of(a) for a in all_allocs]
             return [{"fn": "c11.static", "args": {"mems": case["mems"], "reqs": reqs}},
                     {"fn": "c11.descr", "args": {"addr": 0, "shape": SHAPE}}]
-        prog = to_prog(f, ids)
+        n_blocks = len(f.body.blocks)
+        prog = to_prog(f, ids) if n_blocks == 1 else []  # MiniMallocate is a no-op on a multi-block body
         base = {"mode": VIEWMODE, "mems": case["mems"], "prog": prog}
-        auto_req = {"fn": "c11.auto", "args": {"sizes": [req_of(a)[1] for a in all_allocs]}}
+        auto_req = {"fn": "c11.select", "args": {"mode": case["mode"], "sizes": [req_of(a)[1] for a in all_allocs],
+                                                 "blocks": n_blocks}}
+        dyn_req = {"fn": "c11.dynamic", "args": {"allocs": [
+            [a.memory_space is not None and a.memory_space.data == "L1",
+             None if a.alignment is None else a.alignment.value.data] for a in all_allocs]}}
+        import minimalloc
+        if not hasattr(minimalloc, "__file__"):
+            # the solver is the first-fit stand-in of harness/compat.py: the model side is the closed Lean function
+            # miniMallocateFF (lifetimes + proved first-fit solver + placement); equal addresses tie the stub to it
+            return [{"fn": "c11.miniff", "args": dict(base, checked=FC11A)}, auto_req,
+                    {"fn": "c11.descr", "args": {"addr": 0, "shape": SHAPE}}, dyn_req]
+        # a real `minimalloc` package: the solver stays a parameter (FC11a is not modelled on this path).
         # phase 1: everything before the solver is called; then the (external) solver; then placement
         (a1,) = leandrv.run_batch([{"fn": "c11.lifetimes", "args": base}])
         sol = [[] for _ in case["mems"]]
         if "ok" in a1 and "error" not in a1["ok"]:
-            import minimalloc
             bufs = a1["ok"]["bufs"]
             for m, (start, cap) in enumerate(case["mems"]):
                 sub = [minimalloc.Buffer(str(i), b[0], b[1], b[2], b[3]) for i, b in enumerate(bufs) if b[4] == m]
@@ -708,11 +833,11 @@ class C11(Prop):
                     info["solver_raised"] = type(e).__name__
                     break
         return [{"fn": "c11.mini", "args": dict(base, sol=sol)}, auto_req,
-                {"fn": "c11.descr", "args": {"addr": 0, "shape": SHAPE}}]
+                {"fn": "c11.descr", "args": {"addr": 0, "shape": SHAPE}}, dyn_req]
 
     def model(self, case, answers):
         if case["kind"] == "size":
-            if case.get("space", "L1") != "L1":
+            if not_rewritten(case):
                 return {"rewritten": False}
             a = answers[0]
             if "err" in a:
@@ -734,21 +859,32 @@ class C11(Prop):
                 return {"raised": ERR2EXC.get(r["error"], "model:" + r["error"])}
             d = answers[1]["ok"]
             return {"placed": r, "descr": [[p[1] + d[0], p[1] + d[1], d[2], d[3]] for p in r], "leftover_allocs": 0,
-                    "runtime_alloc_calls": 0}
-        r, auto, d = answers[0]["ok"], answers[1]["ok"], answers[2]["ok"]
-        if case["mode"] == "auto" and not auto:
-            # DynamicAllocs: no alloc of the generated programs is in "L1", nothing is rewritten
+                    "runtime_alloc_calls": 0, "dyn": []}
+        r, sel, d, dyn = answers[0]["ok"], answers[1]["ok"], answers[2]["ok"], answers[3]["ok"]
+        if isinstance(sel, dict):  # unsupported allocation strategy
+            return {"raised": ERR2EXC.get(sel["error"], "model:" + sel["error"])}
+        if sel == "noop":  # MiniMallocate on a body that is not a single block
             return {"placed": [], "descr": [], "leftover_allocs": info.get("n_allocs", 0), "runtime_alloc_calls": 0,
-                    "bufs": [], "deallocs": []}
+                    "dyn": [], "bufs": [], "deallocs": []}
+        if sel == "dynamic":
+            # DynamicAllocs: allocs in "L1" become calls of the runtime allocator, the others are left alone
+            if isinstance(dyn, dict):
+                return {"raised": ERR2EXC.get(dyn["error"], "model:" + dyn["error"])}
+            ncall = sum(1 for x in dyn if x is not None)
+            return {"placed": [], "descr": [[["ret", i, 0], ["ret", i, 1], 0, SHAPE] for i in range(ncall)],
+                    "leftover_allocs": len(dyn) - ncall, "runtime_alloc_calls": ncall,
+                    "dyn": ([None if x is None else [x, True] for x in dyn] if ncall else []), "bufs": [], "deallocs": []}
         if "solver_raised" in info:
             return {"raised": info["solver_raised"]}
         if "error" in r:
             return {"raised": ERR2EXC.get(r["error"], "model:" + r["error"])}
         out = {"placed": r["placed"], "descr": [[p[1] + d[0], p[1] + d[1], d[2], d[3]] for p in r["placed"]],
-               "leftover_allocs": info.get("n_allocs", 0) - len(r["placed"]), "runtime_alloc_calls": 0,
+               "leftover_allocs": info.get("n_allocs", 0) - len(r["placed"]), "runtime_alloc_calls": 0, "dyn": [],
                "bufs": sorted(b[:5] for b in r["bufs"]), "deallocs": sorted(r["deallocs"])}
-        if not all(r["contract"]):
+        if "contract" in r and not all(r["contract"]):
             out["contract_violated_by_solver"] = r["contract"]
+        if r.get("wellord") is False:
+            out["program_not_in_ssa_order"] = True  # hypothesis WellOrd of lifetimes_closed (checked by wellOrdB)
         return out
 
     def compare(self, case, impl_out, model_out):
@@ -846,8 +982,12 @@ class C11(Prop):
     def oracle_prog(self, case, out):
         from snaxc.dialects import snax
         res = []
-        if case["mode"] == "auto" and not out["placed"]:
-            return []  # nothing was placed statically (dynamic fallback or no top-level alloc)
+        for i, e in enumerate(out.get("dyn") or []):
+            if e is not None and not e[1]:
+                res.append({"what": f"runtime allocation {i}: snax_alloc_l1 is not called with the size operand of the snax.alloc",
+                            "finding": None})
+        if (case["mode"] in ("auto", "dynamic") or case.get("blocks", 1) != 1) and not out["placed"]:
+            return res  # nothing was placed statically (runtime allocation, no top-level alloc, or a multi-block body)
         mems = case["mems"]
         ctx, module, f = build_ir(case)
         ids = number_values(f)
@@ -938,7 +1078,11 @@ class C11(Prop):
                 total *= n
             fully_static = all(st is not None and b is not None for t in case["dims"] for st, b in t)
             return k + (":static-dense-offset" if fully_static and span == total and case["offset"] else ":static")
-        if case["mode"] == "auto" and impl_out.get("leftover_allocs") and not impl_out.get("placed"):
+        if case.get("blocks", 1) != 1:
+            k += ":multiblock"
+        if impl_out.get("runtime_alloc_calls"):
+            return k + ":runtime-alloc-calls"
+        if case["mode"] in ("auto", "dynamic") and impl_out.get("leftover_allocs") and not impl_out.get("placed"):
             return k + ":nothing-placed"
         reuse = len({(p[0], p[1]) for p in impl_out.get("placed", [])}) < len(impl_out.get("placed", []))
         return k + (":address-reused" if reuse else "")
